@@ -143,6 +143,48 @@ LeadTreesOf(t) == {Renumber(LeadHead(g[1], WordAst(g[2]), LeadTail(g[3]))) : g \
 LeadSubs == "ab6c"
 LeadISubs == "aAb4"
 LeadFlags(t) == IF Quick /\ t \notin {1, 4, 5} THEN {NoFlags} ELSE {NoFlags, Flags(TRUE, FALSE, FALSE)}
+\* quantified-alternation family ("qalt").  RepeatMatcher runs the WHOLE body again on every iteration and rejects exactly the iterations
+\* that end where they began; which alternative of a disjunction is taken is decided per iteration.  The dimension is the WIDTH PROFILE of
+\* the alternatives of a quantified disjunction: an alternative that always consumes, one that never does (an assertion: ^ $ \b \B, the four
+\* lookarounds, a sequence of assertions), one that may or may not (empty, (), x?, x*?, assertion + optional), an assertion glued to a
+\* consumer - every ordered pair of them (a body "can be empty" if ANY alternative can; it "is always empty" only if ALL are) x every
+\* quantifier x capturing or not x what surrounds the quantified atom (nothing; a continuation that can fail, so the matcher gives
+\* iterations back; something in front; inside a lookahead; under an outer star; behind, in a lookbehind).  With m (and i, s) on subjects
+\* with line breaks for the pairs of an anchor and a consumer.
+QaltAlts == <<Chr(97), AnyC, Sh(119),                                                                                       \* 1..3   always consume
+              Bol, Eol, Wb, Nwb, La(FALSE, Chr(97)), La(TRUE, Chr(97)), Lb(FALSE, Chr(97)), Lb(TRUE, Chr(97)), Cat(Wb, Bol),  \* 4..12  never consume
+              Eps, Grp(0, Eps), Rep(Chr(97), 0, 1, TRUE), Rep(Chr(97), 0, -1, FALSE), Cat(Wb, Rep(Chr(97), 0, 1, TRUE)),      \* 13..17 may be empty
+              Cat(Bol, Chr(97)), Cat(Chr(97), Eol)>>                                                                         \* 18..19 assertion + consumer
+QaltN == Len(QaltAlts)
+QaltKind(k) == IF k <= 3 THEN "adv" ELSE IF k <= 12 THEN "zero" ELSE IF k <= 17 THEN "opt" ELSE "adv"
+QaltWrap(w, a) == IF w = 1 THEN a ELSE Grp(0, a)                         \* (?:p|q) / (p|q)
+QaltCtx(c, t) == CASE c = 1 -> t                                          [] c = 2 -> Cat(t, Chr(98))
+                   [] c = 3 -> Cat(Chr(98), t)                            [] c = 4 -> Cat(La(FALSE, Cat(t, Chr(98))), AnyC)
+                   [] c = 5 -> Rep(Ncg(Cat(t, Chr(98))), 0, -1, TRUE)     [] c = 6 -> Cat(AnyC, Lb(FALSE, Cat(Chr(98), t)))
+QaltCtxs == 1..6
+QaltQuants == 1..10                                                       \* the ten quantifiers of ApplyU
+QaltTree(g) == Renumber(QaltCtx(g[5], ApplyU(g[3], QaltWrap(g[4], Alt(QaltAlts[g[1]], QaltAlts[g[2]])))))      \* g = <<p, q, quantifier, wrapper, context>>
+\* quick: every alternative against `a` (every quantifier) and against `$` (* +? {1,2}), both orders, bare and uncaptured; the capturing
+\* wrapper and the other contexts on nine representative pairs (every pair of width profiles occurs) under six quantifiers
+QaltRepPairs == {<<4, 1>>, <<1, 5>>, <<6, 2>>, <<8, 1>>, <<1, 13>>, <<15, 5>>, <<3, 10>>, <<18, 4>>, <<16, 14>>}
+QaltQ6 == {1, 2, 3, 5, 8, 10}                                                \* * + ? +? {1,2} {0,2}?
+QaltGrid == IF Quick THEN {<<p, 1, u, 1, 1>> : p \in 1..QaltN, u \in QaltQuants} \cup {<<1, p, u, 1, 1>> : p \in 1..QaltN, u \in QaltQuants}
+                          \cup {<<p, 5, u, 1, 1>> : p \in 1..QaltN, u \in {1, 5, 8}} \cup {<<5, p, u, 1, 1>> : p \in 1..QaltN, u \in {1, 5, 8}}
+                          \cup {<<pq[1], pq[2], u, 2, c>> : pq \in QaltRepPairs, u \in QaltQ6, c \in {1, 2}}
+                          \cup {<<pq[1], pq[2], u, 1, c>> : pq \in QaltRepPairs, u \in QaltQ6, c \in QaltCtxs \ {1}}
+            ELSE \* thorough: all ordered pairs x every quantifier x both wrappers, bare and before a continuation; the other contexts under six quantifiers
+                 ((1..QaltN) \X (1..QaltN) \X QaltQuants \X {1, 2} \X {1, 2}) \cup ((1..QaltN) \X (1..QaltN) \X QaltQ6 \X {1} \X (QaltCtxs \ {1, 2}))
+ASSUME /\ {g[1] : g \in QaltGrid} = 1..QaltN /\ {g[2] : g \in QaltGrid} = 1..QaltN /\ {g[3] : g \in QaltGrid} = QaltQuants       \* the sub-grid keeps every class
+       /\ {g[4] : g \in QaltGrid} = {1, 2} /\ {g[5] : g \in QaltGrid} = QaltCtxs
+       /\ {<<QaltKind(g[1]), QaltKind(g[2])>> : g \in QaltGrid} = {"adv", "zero", "opt"} \X {"adv", "zero", "opt"}
+QaltTreesOf(u) == {QaltTree(g) : g \in {x \in QaltGrid : x[3] = u}}
+\* with flags: an anchor (^ $ ^a a$) against a consumer (a . \w), both orders, on subjects with line breaks and both cases
+QaltMPairs == IF Quick THEN {<<4, 1>>, <<5, 1>>, <<4, 2>>, <<5, 3>>, <<18, 2>>, <<19, 3>>} ELSE {4, 5, 18, 19} \X {1, 2, 3}
+QaltMGrid == {<<pq[1], pq[2], u, w, c>> : pq \in QaltMPairs \cup {<<x[2], x[1]>> : x \in QaltMPairs}, u \in (IF Quick THEN QaltQ6 ELSE QaltQuants),
+                                         w \in (IF Quick THEN {1} ELSE {1, 2}), c \in (IF Quick THEN {1} ELSE {1, 2})}
+ASSUME {g[1] : g \in QaltMGrid} = {1, 2, 3, 4, 5, 18, 19} /\ {g[2] : g \in QaltMGrid} = {1, 2, 3, 4, 5, 18, 19}
+QaltMTreesOf(u) == {QaltTree(g) : g \in {x \in QaltMGrid : x[3] = u}}
+QaltMFlags == {Flags(FALSE, TRUE, FALSE), Flags(TRUE, TRUE, TRUE)}
 \* families given as explicit tree sets: [name, trees, flag sets, subject set without / with the i flag].  A family is cut into parts
 \* (one record per part, same name) only so that TLC's workers share the enumeration and the laws: the union is what is stated above.
 BrefSubs == IF Quick THEN "abc4" ELSE "abc5"
@@ -155,6 +197,8 @@ SpecialFamilies ==
   \o SX2!SetToSeq({SFam("resetw", {t \in ResetWTrees : <<t.min, t.max, t.g>> = q}, {NoFlags}, "abc4", "aAb4") : q \in ResetQuants} \ {SFam("resetw", {}, {NoFlags}, "abc4", "aAb4")})
   \o SX2!SetToSeq({SFam("cls", {t \in ClsTrees : ClsOf(t).neg = neg /\ ClsOf(t).items[1] = p}, {NoFlags, IFlag}, "cls2", "cls2") : neg \in BOOLEAN, p \in ClsMembers})
   \o SX2!SetToSeq({SFam("lead", LeadTreesOf(t), LeadFlags(t), LeadSubs, LeadISubs) : t \in LeadTails})
+  \o SX2!SetToSeq({SFam("qalt", QaltTreesOf(u), {NoFlags}, "abc4", "abc4") : u \in QaltQuants})
+  \o SX2!SetToSeq({SFam("qalt", QaltMTreesOf(u), QaltMFlags, "mix3", "mix3") : u \in QaltQuants})
 
 \* flag sets worth trying on a tree: a flag is added only where a node it acts on occurs
 HasLetters(a) == Kinds(a) \cap {"chr", "cls", "bref"} # {}
@@ -224,7 +268,7 @@ AllLazy(a, g) == IF a.t = "rep" THEN [a EXCEPT !.g = g, !.x = <<AllLazy(a.x[1], 
 SeqSet(q) == {q[k] : k \in 1..Len(q)}
 \* small families are checked on more subjects than the big ones
 LawSubjects(fam, f) == IF fam = "cls" THEN SubjectsOf("cls1")
-                       ELSE IF fam \in {"mix0", "mix1"} \/ f.i THEN SubjectsOf("mix2")
+                       ELSE IF fam \in {"mix0", "mix1"} \/ f.i \/ f.m THEN SubjectsOf("mix2")
                        ELSE IF fam \in {"full0", "full1", "bref", "reset3", "brefk"} THEN SubjectsOf("abc3") ELSE SubjectsOf("abc2")
 SyntaxLaw(a) ==
   LET src == Render(a)  p == Parse(src) IN
